@@ -6,10 +6,8 @@
   * character classes as finite lists (`idChars`, ASCII/Unicode digits);
   * keyword rules `kw\b` (`kw_hit`, `kw_miss`), the two-word rules `not\s+in\b`, `else\s*if\b`
     (`spaced_hit`, `spaced_some`, `spaced_miss`);
-  * `word_firstMatch`: for an identifier-shaped lexeme followed by a non-word character the
-    winning rule of the *whole* table is the keyword rule of that word, or `ID`;
-  * numbers (`int_firstMatch`, `float_firstMatch`), strings (`str_firstMatch`),
-    punctuation and operators (`fixed_firstMatch`, `gt_firstMatch`, `lt_firstMatch`).
+  * the expected shapes of the token rules (`kwRule`, `notInRule`, …, `strRule`); the rules are
+    looked up in the generated table by name (`Proofs/RuleTable.lean`), never by position.
 -/
 import Pyab.Proofs.TokenRegex
 import Pyab.Proofs.TriviaConcrete
@@ -419,7 +417,7 @@ theorem spaced_hit {w1 w2 ws rest : List Char} (hw2 : w2 ≠ [])
       rw [spaceP_eq]
       exact idChar_notSpace (hw2c _ List.mem_cons_self)
 
-/-! ### 6. the rule table, named -/
+/-! ### 6. the shapes of the token rules (what the proofs expect to find in the table) -/
 
 def wIn : List Char := ['i', 'n']
 def wNot : List Char := ['n', 'o', 't']
@@ -447,14 +445,10 @@ def intRule : LexRule := ⟨"NON_NEG_INTEGER", digitsRe, .emit .int⟩
 def quotedRe (q : Nat) : Re := .seq (.lit q) (.seq (.rep 0 none false .any) (.lit q))
 def strRule : LexRule := ⟨"STRING_LITERAL", .alt (quotedRe 34) (quotedRe 39), .emit .strip1⟩
 
-/-- the 13 punctuation and operator rules -/
-def punct : List LexRule := Generated.lexState0.rules.take 13
-
-theorem rules0_tok : Generated.lexState0.rules = punct ++
-    [kwRule "KW_IN" wIn, notInRule, kwRule "KW_NOT" wNot, kwRule "KW_DEF" wDef,
-     kwRule "KW_SALT" wSalt, kwRule "KW_SPLITTERS" wSplitters, kwRule "KW_IF" wIf, elifRule,
-     kwRule "KW_ELSE" wElse, kwRule "KW_WEIGHTED" wWeighted, kwRule "KW_RETURN" wReturn,
-     kwRule "KW_AND" wAnd, kwRule "KW_OR" wOr,
-     idRule, floatRule, intRule, strRule, bcs, ic, nl, wsr] := rfl
+/-- a one-character rule -/
+def litRule (name : String) (c : Char) : LexRule := ⟨name, .lit c.toNat, .emit .raw⟩
+/-- a two-character rule -/
+def lit2Rule (name : String) (c d : Char) : LexRule :=
+  ⟨name, .seq (.lit c.toNat) (.lit d.toNat), .emit .raw⟩
 
 end Pyab.TokenLex
